@@ -82,7 +82,7 @@ func genVC(P *Program, C *Contracts, S *Sorts, key string, pure map[*ssa.Functio
 		vc.Errs = append(vc.Errs, "no such function in the loaded program: "+key)
 		return vc
 	}
-	ex := &Exec{P: P, C: C, S: S, topKey: key, top: ct, mutable: map[string]bool{}, notes: map[string]bool{}, heapDecl: map[string]bool{}, oblNames: map[string]int{}, globals: map[string]string{}, funcsUsed: map[string]string{}, pure: pure}
+	ex := &Exec{P: P, C: C, S: S, topKey: key, top: ct, mutable: map[string]bool{}, notes: map[string]bool{}, heapDecl: map[string]bool{}, oblNames: map[string]int{}, globals: map[string]string{}, funcsUsed: map[string]string{}, pure: pure, nonneg: map[string]bool{}}
 	for _, h := range ct.Modifies {
 		if _, ok := S.heaps[h]; !ok {
 			ex.fail("%s: modifies unknown heap %s", key, h)
@@ -251,9 +251,15 @@ func genVC(P *Program, C *Contracts, S *Sorts, key string, pure map[*ssa.Functio
 func (f *Frame) assumeNonFresh(t types.Type, term string) {
 	switch u := t.Underlying().(type) {
 	case *types.Pointer, *types.Map:
-		f.ex.assume("(>= " + term + " 0)")
+		if !f.ex.nonneg[term] {
+			f.ex.assume("(>= " + term + " 0)")
+			f.ex.nonneg[term] = true
+		}
 	case *types.Slice:
-		f.ex.assume("(>= (Slice.ptr " + term + ") 0)")
+		if !f.ex.nonneg["(Slice.ptr "+term+")"] {
+			f.ex.assume("(>= (Slice.ptr " + term + ") 0)")
+			f.ex.nonneg["(Slice.ptr "+term+")"] = true
+		}
 	case *types.Struct:
 		sn := f.sortOf(t)
 		for i := 0; i < u.NumFields(); i++ {
